@@ -1,6 +1,7 @@
 (* C18 — Hashing any path list returns cleanly: no crash, deadlock or leak (race freedom is outside the model).
    Statements + `exact` + Print Assumptions only. *)
-From Spok Require Import Base Sha256 Hash HashProofs.
+From Spok Require Import Base Sha256 Hash HashProofs RunCache RunCacheProofs RunCacheInst.
+Open Scope N_scope.
 
 (* For every file system, list (any length, duplicates, directories, unreadable entries), CPU count >= 1 and
    schedule: the pool reaches, within the step bound, a state with no enabled transition in which the feeder,
@@ -28,3 +29,26 @@ Example C18_nonvacuous :
   /\ hash_run sha256 ex_fs 1 [] (fun k => k) = Done (hash_spec sha256 ex_fs []).
 Proof. split; vm_compute; reflexivity. Qed.
 Print Assumptions C18_nonvacuous.
+
+Close Scope N_scope.
+(* "... so spok stops with a message": where the digest meets the run.  If a task selected for the run names a file that
+   cannot be read, the run - forced or not, whatever the cache holds and whatever the other tasks do - ends with an error,
+   and (task names being distinct, as file.New guarantees) none of that task's commands is started. *)
+Theorem C18_stops_the_run : forall (D : Type) (deqb : D -> D -> bool) (dempty : D) (digest : inputs -> D)
+  (force : bool) (b : name -> beh) (s : st D) (order : list task) (t : task),
+  In t order -> inputs_of (files D s) t = None ->
+  (exists e : errk, rr_out D (run D deqb dempty digest force b s order) = RunErr e) /\
+  (NoDup (map tname order) -> ~ In (tname t) (rr_exec D (run D deqb dempty digest force b s order))).
+Proof. exact unreadable_dependency_stops_the_run. Qed.
+Print Assumptions C18_stops_the_run.
+
+(* a forced run of a(f0) then b(f1) where f1 does not exist: a runs, then the run stops; b is never started *)
+Definition t18a := {| tname := 0; lits := [0]; globs := [] |}.
+Definition t18b := {| tname := 1; lits := [1]; globs := [] |}.
+Example C18_run_nonvacuous :
+  let s := apply_op_i (init_i (fun _ => None)) (Edit 0 (Some 1)) in
+  inputs_of (files DI s) t18b = None
+  /\ rr_out DI (run_i true (fun _ => BSucc) s [t18a; t18b]) = RunErr HashFailed
+  /\ rr_exec DI (run_i true (fun _ => BSucc) s [t18a; t18b]) = [0].
+Proof. repeat split; vm_compute; reflexivity. Qed.
+Print Assumptions C18_run_nonvacuous.
